@@ -180,7 +180,7 @@ func runC16(e *Env) {
 	}
 	if e.want("C16.R3") && acq != nil {
 		ok, why := false, "no increment of the in-flight counter found in the on-load callback"
-		for _, c := range core.CallsNamed(acq, "pkg/sync.Map.LoadOrStoreWithFunc") {
+		for _, c := range core.CallsNamed(acq, "pkg/sync.Map.LoadOrStoreWithFunc", "pkg/sync.Map.ReplaceWithFunc") {
 			onLoad, _ := core.MethodBehind(core.FuncArgClosure(core.Arg(c, 2))) // a literal, or the method behind a method value
 			if onLoad == nil {
 				continue
@@ -192,6 +192,11 @@ func runC16(e *Env) {
 				}
 				if _, fl, isF := core.FieldOf(st.Addr); !isF || fl != "processedCounter" {
 					return
+				}
+				if fa, isFA := st.Addr.(*ssa.FieldAddr); isFA {
+					if _, fresh := core.Resolve(fa.X).(*ssa.Alloc); fresh {
+						return // the first request's new queue (counter 1): not an increment of a shared counter
+					}
 				}
 				_, g := core.GuardedBy(st, func(cond ssa.Value) core.CondMatch {
 					cmp, isCmp := core.AsCmp(cond)
